@@ -7,4 +7,5 @@ CONSTANTS
   Extra <- Authorities
   KnownLiterals <- KnownLits
 INVARIANT HostSplitLaw
+INVARIANT HostIndependentOfPort
 INVARIANT Emit
